@@ -361,6 +361,35 @@ def copy_nonoverlapping(eng, st, site, func, target, args, dty):
     return [(st, UNIT)]
 
 
+def array_overwrite(eng, st, dst, src, d):
+    """a fixed-size array (a local or a field) overwritten through a slice of it: whole array -> the same value a
+    `try_into()` of the source slice gives; part of it -> the elements concerned when the bounds are constants,
+    otherwise an array of unknown content"""
+    arr = eng.load(st, dst.base[1], dst.base[2])
+    if not isinstance(arr, VArr):
+        return
+    whole = dst.start.is_const() and dst.start.c == 0 and dst.len.is_const() and dst.len.c == arr.n
+    if whole:
+        nv = VArr(arr.n, None, eng.fresh("arr"), ("slice", d))
+        tgtv = st.cells.get(src.base) if not isinstance(src.base, tuple) or src.base[0] in ("heap", "obj") else None
+        if isinstance(tgtv, VVec) and tgtv.segs is None and tgtv.name and arr.n <= 8 and src.start.is_const():
+            es = []
+            for i in range(arr.n):
+                r = elem_ref(eng, st, src, Lin.const(i))
+                es.append(eng.load(st, r.cell, r.path))
+            if all(isinstance(e, VInt) for e in es):
+                nv = VArr(arr.n, tuple(es), nv.name, None)
+    elif arr.elems is not None and dst.start.is_const() and dst.len.is_const() and dst.len.c <= 16:
+        es = list(arr.elems)
+        for i in range(dst.len.c):
+            r = elem_ref(eng, st, src, Lin.const(i))
+            es[dst.start.c + i] = eng.load(st, r.cell, r.path)
+        nv = VArr(arr.n, tuple(es), arr.name, None)
+    else:
+        nv = VArr(arr.n, None, eng.fresh("arr"), None)
+    eng.store(st, dst.base[1], dst.base[2], nv)
+
+
 @stub(r"^core::slice::<impl \[T\]>::copy_from_slice$|^core::slice::<impl \[T\]>::clone_from_slice$")
 def copy_from_slice(eng, st, site, func, target, args, dty):
     frame, bb, t = site
@@ -375,10 +404,12 @@ def copy_from_slice(eng, st, site, func, target, args, dty):
         return []
     d = slice_desc(eng, st, src)
     st.emit(("copy", dst.base, dst.start, VInt(eng.usize_ty(), src.len), d, site_info(site)))
-    tgt = st.cells.get(dst.base)
+    tgt = st.cells.get(dst.base) if not (isinstance(dst.base, tuple) and dst.base and dst.base[0] == "loc") else None
     if isinstance(tgt, VVec):
         from stubs import patch_segs
         st.cells[dst.base] = VVec(tgt.len, patch_segs(eng, st, tgt.segs, dst.start, src.len, d), None, tgt.name, tgt.elem_ty, tgt.marks)
+    elif isinstance(dst.base, tuple) and dst.base and dst.base[0] == "loc":
+        array_overwrite(eng, st, dst, src, d)
     return [(st, UNIT)]
 
 
